@@ -32,7 +32,7 @@ def comodo_dataset(spec, rng, extra_vars=True):
     return ds
 
 
-def sgrid_attrs(spec, kind, rng):
+def sgrid_attrs(spec, kind, rng, entry_order_seed=None):
     """spec axes X, Y, Z in that order; every axis has center + exactly one node position."""
     sp = lambda: rng.choice([": ", ":"])  # noqa: E731
 
@@ -45,27 +45,36 @@ def sgrid_attrs(spec, kind, rng):
         (nd,) = [d for p, d in spec[a]["pos"].items() if p != "center"]
         return nd
 
+    def cells(axes):
+        # every entry names its own node dimension, so the entries need not follow the order of node_dimensions
+        axes = list(axes)
+        if entry_order_seed is not None:
+            import random as _r
+
+            _r.Random(entry_order_seed).shuffle(axes)
+        return " ".join(cell(a) for a in axes)
+
     attrs = {"cf_role": "grid_topology", "topology_dimension": {"1d": 1, "2d": 2, "2dv": 2, "3d": 3}[kind]}
     if kind == "1d":
         attrs["node_dimensions"] = node("X")
         attrs["face_dimensions"] = cell("X")
     elif kind == "2d":
         attrs["node_dimensions"] = " ".join(node(a) for a in "XY")
-        attrs["face_dimensions"] = " ".join(cell(a) for a in "XY")
+        attrs["face_dimensions"] = cells("XY")
     elif kind == "2dv":
         attrs["node_dimensions"] = " ".join(node(a) for a in "XY")
-        attrs["face_dimensions"] = " ".join(cell(a) for a in "XY")
+        attrs["face_dimensions"] = cells("XY")
         attrs["vertical_dimensions"] = cell("Z")
     elif kind == "3d":
         attrs["node_dimensions"] = " ".join(node(a) for a in "XYZ")
-        attrs["volume_dimensions"] = " ".join(cell(a) for a in "XYZ")
+        attrs["volume_dimensions"] = cells("XYZ")
     return attrs
 
 
-def sgrid_dataset(spec, kind, rng, with_comodo=False):
+def sgrid_dataset(spec, kind, rng, with_comodo=False, entry_order_seed=None):
     import xarray as xr
 
-    attrs = sgrid_attrs(spec, kind, rng)
+    attrs = sgrid_attrs(spec, kind, rng, entry_order_seed)
     sizes = {}
     for a, ax in spec.items():
         for p, d in ax["pos"].items():
